@@ -76,10 +76,14 @@ func (ex *Exec) callAt(x ssa.Value, cc *ssa.CallCommon, h *Heap, reach Term) {
 	}
 	// dynamic call through a function value
 	sig := cc.Value.Type().Underlying().(*types.Signature)
+	if ins, ok := x.(ssa.Instruction); ok {
+		ex.safety("safe.nilfunc", reach, not(eq(ex.val(cc.Value), tInt(0))), ins, "call of a nil function value "+cc.Value.Name())
+	}
 	fld := ""
 	var dynVars map[string]SV
 	var dynPre *Heap
 	if ex.depth == 0 && ex.contract != nil && len(ex.contract.DynCalls) > 0 {
+		var owner ssa.Value
 		switch v := cc.Value.(type) {
 		case *ssa.Field:
 			fld = fieldName(v.X.Type(), v.Field)
@@ -88,6 +92,32 @@ func (ex *Exec) callAt(x ssa.Value, cc *ssa.CallCommon, h *Heap, reach Term) {
 				st, _ := derefStruct(fa.X.Type())
 				fld = fieldName(st, fa.Field)
 			}
+		case *ssa.Lookup:
+			// function value looked up in a map held by a struct field
+			if u, ok := v.X.(*ssa.UnOp); ok && !v.CommaOk {
+				if fa, ok := u.X.(*ssa.FieldAddr); ok {
+					st, _ := derefStruct(fa.X.Type())
+					fld = fieldName(st, fa.Field)
+					owner = fa.X
+				}
+			}
+		}
+		for _, dc := range ex.contract.DynCalls {
+			if dc.Field != fld || dc.Like == "" || owner == nil {
+				continue
+			}
+			f := ex.P.byKey[ex.fn.Pkg.Pkg.Path()+"."+dc.Like]
+			if f == nil || f.Signature.Params().Len() != len(cc.Args) {
+				unsupported("dyncall %s like %s: no such method with %d parameters", fld, dc.Like, len(cc.Args))
+			}
+			args := []Term{ex.val(owner)}
+			for _, a := range cc.Args {
+				args = append(args, ex.val(a))
+			}
+			ex.q.note("call through a function value of %s treated as %s (every function stored there is audited to carry the same contract)", fld, dc.Like)
+			rs := ex.callFunc(f, args, nil, nil, h, reach, x)
+			ex.setResults(x, f.Signature, rs)
+			return
 		}
 		ex.counters["dyn."+fld]++
 		dynVars = ex.paramVars()
@@ -97,7 +127,7 @@ func (ex *Exec) callAt(x ssa.Value, cc *ssa.CallCommon, h *Heap, reach Term) {
 		dynPre = h.clone()
 		sc := ex.specCtx(dynVars, dynPre)
 		for _, dc := range ex.contract.DynCalls {
-			if dc.Field == fld && !dc.Ensures && !dc.OnPanic {
+			if dc.Field == fld && !dc.Ensures && !dc.OnPanic && dc.Like == "" {
 				ex.q.oblige(fmt.Sprintf("%s/pre@dyn.%s#%d.%s", ex.q.fnName, fld, ex.counters["dyn."+fld], dc.Clause.Label), "pre", reach, sc.evalBool(dc.Clause),
 					ex.P.fset.Position(x.Pos()), "precondition of the call through "+fld+": "+dc.Clause.Text)
 			}
